@@ -17,7 +17,11 @@ use crate::{vensure, vfail};
 use arbitrary::Unstructured;
 use domain::base::name::{Name, ToName};
 use domain::base::scan::{ConvertSymbols, EntrySymbol, IterScanner, Scanner, StrError, Symbol};
+use domain::base::iana::{Rtype, SvcParamKey};
+use domain::base::rdata::UnknownRecordData;
 use domain::rdata::nsec3::{Nsec3Salt, OwnerHash};
+use domain::rdata::svcb::value::Ech;
+use domain::rdata::svcb::ScanSvcParamValue;
 use domain::rdata::ZoneRecordData;
 use domain::utils::base64::DecodeError;
 use domain::utils::{base16, base32, base64};
@@ -1128,6 +1132,22 @@ const TMPLS: [Tmpl; 13] = [
     Tmpl { name: "NSEC3-hash", codec: B32Hex, entry: false, pre: "NSEC3 1 0 10 - ", post: " A RRSIG" },
 ];
 
+/// Second family (sub-check `zonefile_ext`): fields whose text reaches the
+/// codec by another road than `convert_entry`/`convert_token` of a typed
+/// record -- the SVCB/HTTPS `ech=` parameter value (the record type drives
+/// `base64::SymbolConverter` by hand over the octets delivered by
+/// `scan_svcb_octets`: process_symbol per octet, then process_tail) and
+/// the RFC 3597 generic form `\# <len> <hex>` of an unknown record type
+/// (`UnknownRecordData::scan`). Kept in a table of its own so that the
+/// byte-to-case mapping of `zonefile` (and its replay files) stays as is.
+const TMPLS_EXT: [Tmpl; 5] = [
+    Tmpl { name: "SVCB-ech", codec: B64, entry: false, pre: "SVCB 1 svc.example. ", post: "" },
+    Tmpl { name: "HTTPS-ech", codec: B64, entry: false, pre: "HTTPS 1 . ", post: "" },
+    Tmpl { name: "HTTPS-ech-mid", codec: B64, entry: false, pre: "HTTPS 1 . alpn=h2 ", post: " port=443" },
+    Tmpl { name: "SVCB-ech-first", codec: B64, entry: false, pre: "SVCB 16 . ", post: " ipv4hint=192.0.2.1" },
+    Tmpl { name: "GENERIC-hex", codec: B16, entry: true, pre: "TYPE65280 \\# ", post: "" },
+];
+
 fn field_octets(t: &Tmpl, data: &ZoneRecordData<bytes::Bytes, domain::zonefile::inplace::ScannedDname>) -> Option<Vec<u8>> {
     Some(match (t.name, data) {
         ("DNSKEY", ZoneRecordData::Dnskey(d)) => d.public_key().to_vec(),
@@ -1143,6 +1163,9 @@ fn field_octets(t: &Tmpl, data: &ZoneRecordData<bytes::Bytes, domain::zonefile::
         ("NSEC3PARAM-salt", ZoneRecordData::Nsec3param(d)) => d.salt().as_slice().to_vec(),
         ("NSEC3-salt", ZoneRecordData::Nsec3(d)) => d.salt().as_slice().to_vec(),
         ("NSEC3-hash", ZoneRecordData::Nsec3(d)) => d.next_owner().as_slice().to_vec(),
+        ("SVCB-ech" | "SVCB-ech-first", ZoneRecordData::Svcb(d)) => d.params().ech()?.as_slice().to_vec(),
+        ("HTTPS-ech" | "HTTPS-ech-mid", ZoneRecordData::Https(d)) => d.params().ech()?.as_slice().to_vec(),
+        ("GENERIC-hex", ZoneRecordData::Unknown(d)) => d.data().to_vec(),
         _ => return None,
     })
 }
@@ -1238,12 +1261,23 @@ fn check_escaped(c: Codec, entry: &str, shown: &str, class: &Class, esc: Esc, go
 }
 
 fn run_zonefile(data: &[u8], ctx: &mut Ctx) -> CaseResult {
+    run_zonefile_with(data, ctx, &TMPLS)
+}
+
+fn run_zonefile_ext(data: &[u8], ctx: &mut Ctx) -> CaseResult {
+    run_zonefile_with(data, ctx, &TMPLS_EXT)
+}
+
+fn run_zonefile_with(data: &[u8], ctx: &mut Ctx, tmpls: &[Tmpl]) -> CaseResult {
     let mut u = Unstructured::new(data);
-    let ti = pick(&mut u, TMPLS.len());
-    let t = &TMPLS[ti];
+    let ti = pick(&mut u, tmpls.len());
+    let t = &tmpls[ti];
     let c = t.codec;
     let n = c.name();
     let is_salt = t.name.ends_with("-salt");
+    let is_nsec3 = t.name.starts_with("NSEC3");
+    let is_ech = t.name.contains("-ech");
+    let is_generic = t.name == "GENERIC-hex";
     // text for this codec: token-safe characters only
     let mut tc = gen_text(&mut u, Some(c), true, false);
     if is_salt && chance(&mut u, 24) {
@@ -1269,7 +1303,7 @@ fn run_zonefile(data: &[u8], ctx: &mut Ctx) -> CaseResult {
         ctx.class("zonefile:skipped-ipseckey-empty-key");
         return Ok(());
     }
-    if !t.entry {
+    if is_nsec3 {
         // NSEC3 salt and hash hold at most 255 octets
         if let Class::Canonical(v) | Class::TrailingBits(v) = &class {
             if v.len() > 255 {
@@ -1299,6 +1333,7 @@ fn run_zonefile(data: &[u8], ctx: &mut Ctx) -> CaseResult {
     let mut need_parens = flag(&mut u);
     let mut body = String::new();
     let mut tokens: Vec<String> = vec![];
+    let mut whole_quoted = false;
     for (i, p) in pieces.iter().enumerate() {
         if i > 0 {
             let sep = match pick(&mut u, 7) {
@@ -1323,7 +1358,24 @@ fn run_zonefile(data: &[u8], ctx: &mut Ctx) -> CaseResult {
             body.push_str(sep);
         }
         let (tok, quoted) = render_piece(&mut u, p, &mut esc, ctx);
-        if quoted {
+        if is_ech {
+            // RFC 9460 section 2.1: SvcParam = SvcParamKey ["=" SvcParamValue],
+            // the value a char-string, i.e. contiguous or quoted
+            if !quoted {
+                body.push_str("ech=");
+                body.push_str(&tok);
+            } else if !flag(&mut u) {
+                ctx.class("zonefile:ech-quoted-value");
+                body.push_str(&format!("ech=\"{tok}\""));
+            } else {
+                // the whole parameter in quotes: not in the RFC's grammar,
+                // the reader takes it; no outcome demanded for well-formed
+                // values, but never wrong octets or an accepted malformed one
+                ctx.class("zonefile:ech-quoted-param");
+                body.push_str(&format!("\"ech={tok}\""));
+                whole_quoted = true;
+            }
+        } else if quoted {
             ctx.class("zonefile:quoted-token");
             body.push('"');
             body.push_str(&tok);
@@ -1333,15 +1385,26 @@ fn run_zonefile(data: &[u8], ctx: &mut Ctx) -> CaseResult {
         }
         tokens.push(tok);
     }
+    let pre: String = if is_generic {
+        // RFC 3597 section 5: "\# <length> <hex>"; the length announced is
+        // the one the reference decodes (for malformed text: any)
+        let len = match &class {
+            Class::Canonical(v) | Class::TrailingBits(v) => v.len(),
+            Class::Invalid(_) => chars.len() / 2 + pick(&mut u, 2),
+        };
+        format!("{}{} ", t.pre, len)
+    } else {
+        t.pre.to_string()
+    };
     let rdata = if need_parens {
         ctx.class("zonefile:parenthesised");
         match pick(&mut u, 3) {
-            0 => format!("{}( {} ){}", t.pre, body, t.post),
-            1 => format!("{}(\n\t{}\n){}", t.pre, body, t.post),
-            _ => format!("( {}{}{} )", t.pre, body, t.post),
+            0 => format!("{}( {} ){}", pre, body, t.post),
+            1 => format!("{}(\n\t{}\n){}", pre, body, t.post),
+            _ => format!("( {}{}{} )", pre, body, t.post),
         }
     } else {
-        format!("{}{}{}", t.pre, body, t.post)
+        format!("{}{}{}", pre, body, t.post)
     };
     let zone = format!("x.example. 3600 IN {rdata}\nnext.example. 3600 IN A 192.0.2.1\n");
     ctx.sample(|| format!("{} field of {}: {:?}", n, t.name, show(&zone)));
@@ -1358,7 +1421,10 @@ fn run_zonefile(data: &[u8], ctx: &mut Ctx) -> CaseResult {
         Err(e) => Err(e.to_string()),
     };
     ctx.class(format!("zonefile:{}:{}", t.name, if got.is_ok() { "accepted" } else { "rejected" }));
-    check_escaped(c, &format!("zonefile:{}", t.name), &zone, &class, esc, got.as_ref().map(|v| &v[..]).map_err(|e| e.clone()))?;
+    // (a wholly quoted parameter is outside the RFC 9460 grammar: like a
+    // decimal escape, rejecting it is fine, accepting it binds the octets)
+    let esc_zone = if whole_quoted && esc == Esc::Transparent { Esc::Decimal } else { esc };
+    check_escaped(c, &format!("zonefile:{}", t.name), &zone, &class, esc_zone, got.as_ref().map(|v| &v[..]).map_err(|e| e.clone()))?;
     if got.is_ok() {
         // the reader is still in step: the next line is the A record
         match zf.next_entry() {
@@ -1376,7 +1442,34 @@ fn run_zonefile(data: &[u8], ctx: &mut Ctx) -> CaseResult {
 
     // the same tokens (escapes included, no quoting) through IterScanner
     let shown = tokens.join(" ");
-    if t.entry {
+    if is_ech {
+        // the value parser itself, handed the plain text as the octets of
+        // the value (what scan_svcb_octets delivers after unescaping)
+        let mut sc = IterScanner::<_, Vec<u8>>::new(std::iter::empty::<&str>());
+        let r: R = match Ech::<Vec<u8>>::value_from_scan_octets(&mut sc, SvcParamKey::ECH, text.as_bytes()) {
+            Ok(Some(e)) => {
+                // and its display form is "ech=" + the RFC 4648 encoding
+                let shown = e.to_string();
+                let want = format!("ech={}", rf::encode(c.spec(), e.as_slice()));
+                vensure!(e.as_slice().is_empty() || shown == want, "b64:ech-display:differs-from-rfc4648", "Ech of {} displays as {:?}, reference {:?}", hex(e.as_slice()), shown, want);
+                Ok(e.as_slice().to_vec())
+            }
+            Ok(None) => vfail!("b64:ech-value-scan:key-not-recognised", "value_from_scan_octets(ECH, {:?}) returned None", show(&text)),
+            Err(e) => Err(e.to_string()),
+        };
+        check_outcome(c, "ech-value-scan", &text, &class, r.as_ref().map(|v| &v[..]).map_err(|e| e.clone()))?;
+    } else if is_generic {
+        // the same tokens behind "<len>" through UnknownRecordData on an
+        // IterScanner
+        let len = pre[t.pre.len()..].trim().to_string();
+        let mut all: Vec<&str> = vec![len.as_str()];
+        all.extend(tokens.iter().map(|s| s.as_str()));
+        let mut sc = IterScanner::<_, Vec<u8>>::new(all.into_iter());
+        let r: R = UnknownRecordData::scan_without_marker(Rtype::from_int(65280), &mut sc).map(|d| d.data().to_vec()).map_err(|e| e.to_string());
+        check_escaped(c, "generic-rdata-scan", &shown, &class, esc, r.as_ref().map(|v| &v[..]).map_err(|e| e.clone()))?;
+        let r = iter_entry(c, &tokens);
+        check_escaped(c, "iterscanner-entry", &shown, &class, esc, r.as_ref().map(|v| &v[..]).map_err(|e| e.clone()))?;
+    } else if t.entry {
         let r = iter_entry(c, &tokens);
         check_escaped(c, "iterscanner-entry", &shown, &class, esc, r.as_ref().map(|v| &v[..]).map_err(|e| e.clone()))?;
         if tokens.len() == 1 {
@@ -1393,7 +1486,7 @@ fn run_zonefile(data: &[u8], ctx: &mut Ctx) -> CaseResult {
         check_escaped(c, if is_salt { "nsec3salt-scan" } else { "ownerhash-scan" }, &shown, &class, esc, r.as_ref().map(|v| &v[..]).map_err(|e| e.clone()))?;
     }
     if nontrivial_text(c, &text, &class, tc.edit1) {
-        ctx.nontrivial(&(ti, &zone));
+        ctx.nontrivial(&(t.name, &zone));
     }
     Ok(())
 }
@@ -1427,7 +1520,9 @@ fn health(c: &BTreeMap<String, u64>, _t: bool) -> Result<(), String> {
     ] {
         need.push(k.to_string());
     }
-    for t in &TMPLS {
+    need.push("zonefile:ech-quoted-value".to_string());
+    need.push("zonefile:ech-quoted-param".to_string());
+    for t in TMPLS.iter().chain(TMPLS_EXT.iter()) {
         need.push(format!("zonefile:{}:accepted", t.name));
         need.push(format!("zonefile:{}:rejected", t.name));
     }
@@ -1457,6 +1552,7 @@ pub fn prop() -> Prop {
             SubCheck::new("mutated_text", run_mutated, 800_000, 10_000_000, 400),
             SubCheck::new("chunking", run_chunking, 160_000, 2_000_000, 300),
             SubCheck::new("zonefile", run_zonefile, 250_000, 3_000_000, 400),
+            SubCheck::new("zonefile_ext", run_zonefile_ext, 80_000, 1_000_000, 400),
             SubCheck::new("text_raw", run_text_raw, 300_000, 4_000_000, 200),
         ],
         health: Some(health),
